@@ -170,6 +170,12 @@ func (o *origin) setResponse(b []byte) {
 	o.mu.Unlock()
 }
 
+func (o *origin) accepted() int {
+	o.mu.Lock()
+	defer o.mu.Unlock()
+	return len(o.conns)
+}
+
 func (o *origin) received() []string {
 	o.mu.Lock()
 	defer o.mu.Unlock()
